@@ -28,7 +28,7 @@ new pair); exhaustion is `panic` and does not happen.
 `MERGE_TIME` / `MERGE_COUNT` statics and the stray `println!` in `TrRelIndNone::index_get` are not modelled.
 
 Outcomes: `Res.ok` or `Res.panic` (`unwrap_new_mut` / `unwrap_old` on the wrong variant, failed `assert!` in `init`,
-`Option::unwrap` on a missing reverse map or key, division by zero in `TrRel2Ind1_2::len_estimate`).
+`Option::unwrap` on a missing reverse map or key, the division in `TrRel2Ind1_2::len_estimate`, repaired: finding F24).
 
 Core Lean only, no imports; executable.
 -/
@@ -436,12 +436,13 @@ def all12 (t : Tern) : Res (List ((Int × Int) × List Int)) := do
     let r ← keys12 t e.1.2 e.2.2 e.1.1 e.2.1
     pure ((e.1.1, e.2.1), r)
 
-/-- `TrRel2Ind1_2::len_estimate` (lines 357-361): `rm1.len() * rm2.len() / ((map.len() as f32).sqrt() as usize)` -/
+/-- `TrRel2Ind1_2::len_estimate` (lines 357-361): `rm1.len() * rm2.len() / ((map.len() as f32).sqrt() as usize).max(1)`
+(the `.max(1)` since the repair of finding F24: a copy without keys used to divide by zero) -/
 def lenEstimate12 (t : Tern) : Res Nat := do
   let rm1 ← unwrap t.rm1
   let rm2 ← unwrap t.rm2
-  let d := Nat.sqrt t.map.length
-  if d = 0 then .panic else pure (rm1.length * rm2.length / d)
+  let d := max (Nat.sqrt t.map.length) 1
+  pure (rm1.length * rm2.length / d)
 
 /-- `TrRel2IndNone::index_get(())` -/
 def getNone (t : Tern) : List (Int × Int × Int) :=
